@@ -33,6 +33,7 @@ EPS = float(np.finfo(float).eps)
 F_SAME = "F-C15-same-branch"
 F_BUF = "F-C15-halfplane-buffer"
 F_DROP = "F-C15-vertex-drop"
+F_EXTRA = "F-C15-coincident-lines"
 
 
 # =================================================================== small exact linear algebra
@@ -245,8 +246,9 @@ def oracle_polygon(t1, t2, plane, poly, tol_rel=1e-9):
             m = bary_min(t, p)
             if m is not None and m < -1e-9:
                 bad.append(("vertex-outside-" + which, {"vertex": k, "min_barycentric": m, "point": p.tolist()}))
-    # convexity: consistent orientation of consecutive cross products in the plane
-    if len(poly) >= 3:
+    # convexity: consistent orientation of consecutive cross products in the plane (a vertex list that spans no
+    # area — a point or a segment — is trivially convex; its order along the line is not constrained)
+    if len(poly) >= 3 and polygon_area(n, poly) > 1e-9 * scale * scale:
         u, v = plane_basis(n)
         q = np.column_stack((poly.dot(u), poly.dot(v)))
         m = len(q)
@@ -433,6 +435,14 @@ def classify(case, res, what, res_swapped=None):
     if what in ("swap-changes-vertex-set", "swap-changes-intersection") and res_swapped is not None:
         if not same_branch_class(case, res) and vertex_drop_class(case, res, res_swapped):
             return F_DROP
+        if (what == "swap-changes-vertex-set" and not same_branch_class(case, res) and res.get("inter")
+                and res_swapped.get("inter")):
+            # same convex region in both orders: the lists differ only by extra vertices on its edges
+            t1, t2 = np.asarray(case["t1"], dtype=float), np.asarray(case["t2"], dtype=float)
+            scale = max(1.0, float(np.max(np.abs(t1))), float(np.max(np.abs(t2))))
+            if hull_agree(res["poly"], res_swapped["poly"], np.asarray(res["plane"], dtype=float)[:3],
+                          1e-9 * scale) == "":
+                return F_EXTRA
     if not res.get("ok") or not res.get("inter"):
         # swap-changes-intersection with the first order not intersecting: the swapped call went through the branch
         sw = dict(case, t1=case["t2"], t2=case["t1"], e1=case["e2"], e2=case["e1"], E1=case["E2"], E2=case["E1"])
@@ -1078,6 +1088,21 @@ def hull_agree(A, B, normal, tol):
     return "" if max(dA, dB) <= tol else "convex hulls differ by %g (tol %g)" % (max(dA, dB), tol)
 
 
+def explain_drop(case):
+    """a polygon disagreement between implementation and model is an instance of F_DROP when both polygons lie in
+    the exact polygon and a vertex of it with >= 3 face planes through it is missing from one of them"""
+    def f(py_o, m_o):
+        if py_o.tag[0] != "ok" or m_o.tag[0] != "ok":
+            return None
+        ra = {"ok": True, "inter": bool(py_o.pts) and len(py_o.pts) >= 3, "poly": py_o.pts or []}
+        rb = {"ok": True, "inter": bool(m_o.pts) and len(m_o.pts) >= 3, "poly": m_o.pts or []}
+        try:
+            return F_DROP if vertex_drop_class(case, ra, rb) else None
+        except Exception:  # noqa
+            return None
+    return f
+
+
 def hull_cmp(normal, ctx=None, weak=False):
     """comparator for reported polygons: exact vertex-set agreement first; otherwise the two vertex lists must span
     the same convex region within tol (extra points on edges / duplicates that differ in the last bits are decided
@@ -1130,16 +1155,18 @@ class Cmp:
         self.stats = {"cases": 0, "agree_F": 0, "agree_Q": 0, "tie_Q_only": 0, "rounding_tie": 0}
 
     def add(self, fn, args_f, spec, py_obs, tol, seed_input, branch_pos=None, ordered=False, exact_q=False,
-            stream="G", with_q=False, custom=None):
-        """args_f: callable(mode) -> tokens; custom: optional comparator (py_obs, model_obs, tol) -> reason"""
+            stream="G", with_q=False, custom=None, explain=None):
+        """args_f: callable(mode) -> tokens; custom: optional comparator (py_obs, model_obs, tol) -> reason;
+        explain: optional (py_obs, model_obs) -> finding id when a disagreement is an instance of a known finding"""
         idF = self.drv.add(fn, "F", args_f("F"))
         idQ = self.drv.add(fn, "Q", args_f("Q")) if with_q else None
-        self.items.append((fn, idF, idQ, spec, py_obs, tol, seed_input, branch_pos, ordered, exact_q, stream, custom))
+        self.items.append((fn, idF, idQ, spec, py_obs, tol, seed_input, branch_pos, ordered, exact_q, stream, custom,
+                           explain))
 
     def run(self):
         out = self.drv.run()
         ctx = self.ctx
-        for (fn, idF, idQ, spec, py, tol, seed, bpos, ordered, exact_q, stream, custom) in self.items:
+        for (fn, idF, idQ, spec, py, tol, seed, bpos, ordered, exact_q, stream, custom, explain) in self.items:
             self.stats["cases"] += 1
             mF = parse_model(out.get(idF, "bad missing"), "F", spec)
             rF = custom(py, mF, tol) if custom else agree(py, mF, tol, ordered)
@@ -1161,8 +1188,14 @@ class Cmp:
             if rQ == "":
                 self.stats["tie_Q_only"] += 1
                 continue
+            fid = explain(py, mF) if explain else None
             ctx.broke("correspondence", fn, "implementation %r, model(Float) %r: %s%s" % (
                 py, mF, rF, "" if rQ is None else "; model(Rat): " + rQ), seed)
+            if fid:
+                # rounding defect of the implementation (the model agrees with the exact polygon): recorded,
+                # attributed to the known finding, not a verdict on the model
+                ctx.broken[-1]["finding"] = fid
+                self.stats["explained_by_" + fid] = self.stats.get("explained_by_" + fid, 0) + 1
         for k, v in self.stats.items():
             ctx.extra["corr_%s_%s" % (self.drv.tag, k)] = v
 
@@ -1313,7 +1346,7 @@ def corr_pair(ctx, cmp, case, stream):
         cmp.add("C15.pair", tokens(t1, e1, X1, t2, e2, X2, [E1], [E2]), ["i", "i", "s", "s", "s", "s", "P3"], py,
                 1e-9 * absmax(sc, poly if poly is not None else [1.0]), seed, branch_pos=1, with_q=lattice,
                 stream=stream, custom=hull_cmp(n if np.all(np.isfinite(n)) and np.linalg.norm(n) > 0.5
-                                               else np.array([0.0, 0.0, 1.0]), ctx))
+                                               else np.array([0.0, 0.0, 1.0]), ctx), explain=explain_drop(case))
     if same:
         try:
             pl, pg = ti._handle_same_tetrahedron(e2, t2)
@@ -1400,7 +1433,8 @@ def corr_pair(ctx, cmp, case, stream):
         py = py_err(e)
         pg = None
     cmp.add("C15.poly", tokens(X1, X2, n, [d]), ["i", "P3"], py, 1e-9 * absmax(sc, pg if pg is not None else [1.0]),
-            dict(seed, fn="poly"), branch_pos=1, with_q=lattice, stream=stream, custom=hull_cmp(n, ctx))
+            dict(seed, fn="poly"), branch_pos=1, with_q=lattice, stream=stream, custom=hull_cmp(n, ctx),
+            explain=explain_drop(case))
     ctx.count("corr:poly:" + stream, key=("poly",) + key)
     if v2 is not None and len(v2) >= 1:
         v2 = c_arr(v2)
@@ -1550,6 +1584,17 @@ def corpus_pairs():
                     t2=[[1.0, 0.5, 1.5], [1.0, -0.5, 1.5], [2.0, 0.5, 1.5], [1.5, 0.0, 2.0]], e2=[2.0, 0.0, 0.5, 0.0],
                     E2=1.0, X2=[[-1.0, 1.0, 0.0, 1.5], [0.0, -1.0, -1.0, 2.0], [1.0, 0.0, -1.0, 0.5],
                                 [0.0, 0.0, 2.0, -3.0]], label="corpus:vertex-drop"))
+    # F_EXTRA witness: shared edge in the contact plane (coincident boundary lines), library pinv
+    out.append(dict(t1=[[-0.4030722245340361, -0.32794973655921145, 0.9691835563534585],
+                        [0.7649127263029474, -0.5933319393015395, -0.8614964996286014],
+                        [0.8879011284529339, 0.284952417724174, -0.48375043103197135],
+                        [0.532139097491394, 0.08929876493639854, -0.3524258937956539]],
+                    t2=[[-0.4030722245340361, -0.32794973655921145, 0.9691835563534585],
+                        [0.7649127263029474, -0.5933319393015395, -0.8614964996286014],
+                        [0.2941113248117129, 0.6158695317570104, -0.24757084991980205],
+                        [1.030555213379542, 0.7883022423253303, 0.6255885271595433]],
+                    e1=[0.0, 0.0, 0.9080250331385077, 0.0], e2=[0.0, 0.0, 0.6824648276325453, 0.0], E1=1.0, E2=1.0,
+                    X1=None, X2=None, label="corpus:coincident-lines"))
     return out
 
 
